@@ -263,7 +263,8 @@ func c04Variants(file []byte, tier string, tail int, typeAt []int) []c04Variant 
 			allValues[p] = true
 		}
 	}
-	for p := firstPos; p < len(file)-8; p++ {
+	// the 8 footer bytes themselves are altered too (they are what the check compares with): last = len(file)
+	for p := firstPos; p < len(file); p++ {
 		if tier == "thorough" || allValues[p] {
 			for d := 1; d < 256; d++ {
 				out = append(out, c04Variant{Trunc: -1, Pos: p, Val: int(file[p]) ^ d})
@@ -749,11 +750,18 @@ func c04Oracle(scn c04Scenario, built *rdbBuilt, out *rdbOutcome, damaged bool) 
 		case out.Err == nil && !complete:
 			return mc.Violation("damaged snapshot: Send returned nil although entries are missing", prefix+":accepted-incomplete", detail(map[string]interface{}{"missing": state.Clause, "state_sig": state.Sig}))
 		case out.Err == nil:
-			// accepted, and the dataset is complete and correct: only possible when the
-			// alteration turns the header into an RDB version that has no checksum
-			r := mc.OK(obs, true, out.Events)
-			r.Detail = "accepted-complete"
-			return r
+			// accepted, and the dataset is complete and correct: legitimate only when the alteration turns
+			// the header into an RDB version that has no checksum by definition (1-4)
+			if scn.Trunc < 0 && scn.Pos >= 5 && scn.Pos <= 8 {
+				hdr := append([]byte(nil), built.File[5:9]...)
+				hdr[scn.Pos-5] = byte(scn.Val)
+				if v, err := strconv.Atoi(string(hdr)); err == nil && v >= 1 && v <= 4 {
+					r := mc.OK(obs, true, out.Events)
+					r.Detail = "accepted-complete"
+					return r
+				}
+			}
+			return mc.Violation("damaged snapshot: an altered byte was not noticed (Send returned nil and the snapshot offset was recorded)", prefix+":accepted-unverified", detail(nil))
 		}
 		return mc.OK(obs, len(execLog) > 1, out.Events)
 	}
@@ -820,6 +828,25 @@ func runC04(t *testing.T, rep *mc.Reporter) {
 	var plan []dmg
 	for _, base := range c04DamageSnapshots() {
 		plan = append(plan, dmg{base, 0, []bool{false}})
+	}
+	// the same damage with channel.verifyCrc switched on, for five snapshots: whatever the flag says about
+	// the cache layer, a snapshot replayed from a reader that verified nothing must still be checked
+	for i, base := range c04DamageSnapshots() {
+		switch base.Keys[0].Case + "/" + base.Keys[0].Enc.Kind {
+		case "string/short/raw", "hash/small/listpack", "stream/samefields/v1", "chunk/h/4/table", "set/int16/intset16":
+			if i >= 0 && len(base.Keys) >= 1 && !base.Cfg.Restore {
+				b := base
+				b.Cfg.VerifyCrc = true
+				plan = append(plan, dmg{b, 0, []bool{false}})
+			}
+		}
+	}
+	for _, base := range c04DamageSnapshots() {
+		if len(base.Keys) > 1 { // the multi-key file with expiry / idle / two databases
+			b := base
+			b.Cfg.VerifyCrc = true
+			plan = append(plan, dmg{b, 0, []bool{false}})
+		}
 	}
 	// (a2) damage near the end of multi-key snapshots while the pipes between parser,
 	// distributor and worker are full: RdbPipeSize 1 and 2, one worker, with a target that
